@@ -396,6 +396,11 @@ def auto(F, s, ctx):
                 d = describe_len(f, ops[1])
                 ok, why = index_in_bounds_key(f, bi, ops[1], ln[1])
                 if ok: return True, why
+            # pair[0] / pair[1] inside a closure over `slice.windows(N)` / `chunks_exact(N)`: every element has exactly N items
+            idx = mir.const_of(ops[1]) if ops[1][0] == "c" else const_bound(f, ops[1])
+            if f.kind == "closure" and isinstance(idx, int):
+                n = fixed_window_len(F, f, ops[0])
+                if n is not None and idx < n: return True, "constant index %d into an element of windows(%d)/chunks_exact(%d)" % (idx, n, n)
         return False, None
     if k.startswith("call:index["):
         full = t[1].get("full") or ""
@@ -406,6 +411,10 @@ def auto(F, s, ctx):
             ok, why = index_in_bounds(f, bi, idx, coll)
             return (True, why) if ok else (False, why)
         return False, None
+    if k in ("call:windows", "call:chunks", "call:chunks_exact", "call:rchunks"):
+        n = mir.const_arg(f, t[2][1]) if len(t[2]) > 1 else None
+        if isinstance(n, int) and n > 0: return True, "window / chunk size is the non-zero constant %d" % n
+        return False, "window / chunk size is not a non-zero constant"
     if k in ("call:unwrap", "call:expect"):
         arg = t[2][0]
         # regex capture group that participates in every match
@@ -498,6 +507,25 @@ def collection_index(f, op, depth=0):
         return False
     return True
 
+def fixed_window_len(F, c, len_op):
+    """N when the slice whose length is bounds-checked is the closure's parameter and the closure is passed to an adaptor
+    over slice::windows(N) / chunks_exact(N) with constant N > 0"""
+    src = mir.trace_op(c, len_op)
+    if not src or not all(o.kind == "param" and o.data >= 2 for o in src):
+        # the Len operand is usually PtrMetadata of the parameter: look at the locals' types instead
+        if not any(ty.startswith("&[") or ty.startswith("&&[") for ty in c.locals[2:c.nargs + 1]): return None
+    parent = F.fn(c.parent) if c.parent else None
+    if parent is None: return None
+    for bi, t in parent.calls():
+        full = t[1].get("full") or ""
+        if c.path.rsplit("::", 1)[-1].strip("{}") and ("Windows<" in full or "ChunksExact<" in full) and any(o.kind == "agg" and mir.rv_at(o.fn, *o.data)[1].get("path") == c.path for a in t[2] for o in mir.trace_op(parent, a, transparent=())):
+            for b2, t2 in parent.calls():
+                c2 = mir.callee(t2) or ""
+                if (c2.endswith("]>::windows") or c2.endswith("]>::chunks_exact")) and len(t2[2]) > 1:
+                    n = mir.const_arg(parent, t2[2][1])
+                    if isinstance(n, int) and n > 0: return n
+    return None
+
 def from_unsigned_len(f, op):
     d = describe_len(f, op)
     return d[0] == "len"
@@ -550,7 +578,30 @@ def const_strings(F, f, op, cg, depth=0):
                 sub = const_strings(F, g, g.blocks[bi]["t"][2][o.data - 1], cg, depth + 1)
                 if sub is None: return None
                 out |= sub
+        elif o.kind == "call" and depth < 3 and F.fn(mir.callee(o.fn.blocks[o.data]["t"]) or "") is not None:
+            # the payload of an Option / the value returned by a local lookup helper: every string it can return
+            g = F.fn(mir.callee(o.fn.blocks[o.data]["t"]))
+            sub = _returned_strings(F, g, cg, depth + 1)
+            if sub is None: return None
+            out |= sub
         else:
+            return None
+    return out
+
+def _returned_strings(F, g, cg, depth):
+    out = set()
+    for o in mir.trace_place(g, [0], transparent=()):
+        if o.kind == "const" and o.data.get("k") == "str": out.add(o.data["v"])
+        elif o.kind == "agg":
+            rv = mir.rv_at(o.fn, *o.data)
+            for a in rv[2]:
+                sub = const_strings(F, o.fn, a, cg, depth)
+                if sub is None: return None
+                out |= sub
+        elif o.kind == "const": continue          # None / unit variants
+        else:
+            sub = None
+            if o.kind in ("param", "call"): return None
             return None
     return out
 
